@@ -76,6 +76,14 @@ def gen(seed: int, i: int, tier: str) -> dict:
     ops = []
     known = set()
     kids = {}
+    restore = None
+    if rng.random() < 0.35:
+        # registry restored from persistence, some nodes flagged sleeping (the only way to sleep under 1.x)
+        restore = {str(n): {"type": 17, "version": old, "sleeping": rng.random() < 0.7,
+                            "children": {str(c): {"type": 3, "desc": "c"} for c in children}}
+                   for n in nodes}
+        known = set(nodes)
+        kids = {n: set(children) for n in nodes}
     hb_ok = both2x and not ("2.2" in pair and old != "2.2")
     itypes = [t for t in range(0, G.INTERNAL_MAX[old] + 1) if t != 2 and not (cross and t == 14)
               and not (t == 22 and not hb_ok)]
@@ -104,8 +112,18 @@ def gen(seed: int, i: int, tier: str) -> dict:
             if cross and n not in known:
                 continue
             p = {0: "55", 22: str(rng.randint(0, 9)), 3: "", 1: "", 6: ""}.get(t, G.payload(rng))
+            if t in (0, 22) and rng.random() < 0.25:
+                p = rng.choice(G.ABSURD[t])  # error paths must agree across versions as well
             src = rng.choice([n, 255]) if t == 3 else n
             ops.append(["line", f"{src};255;3;0;{t};{p}\n"])
+        elif r < 0.75 and both2x and not hb_ok:
+            # heartbeat response between {2.0, 2.1} and 2.2: the stated exception covers only what it does to a
+            # KNOWN node with a well-formed payload; from an unknown node, or with an absurd payload, the versions
+            # must still agree
+            if n not in known:
+                ops.append(["line", f"{n};255;3;0;22;{rng.choice(['5', '1x7', '', '1.5'])}\n"])
+            else:
+                ops.append(["line", f"{n};255;3;0;22;{rng.choice(['1x7', '', '1.5', 'xyz'])}\n"])
         elif r < 0.78:
             if cross and n not in known:
                 continue
@@ -126,11 +144,8 @@ def gen(seed: int, i: int, tier: str) -> dict:
         tapes["w.fail.set"] = [rng.choice([0, 0, 0, 1, 2]) for _ in range(6)]
         tapes["w.lat"] = [rng.choice([0, 1]) for _ in range(6)]
     scn = {"pair": list(pair), "ops": ops, "tapes": tapes}
-    if rng.random() < 0.35:
-        # registry restored from persistence, some nodes flagged sleeping (the only way to sleep under 1.x)
-        scn["restore"] = {str(n): {"type": 17, "version": old, "sleeping": rng.random() < 0.7,
-                                   "children": {str(c): {"type": 3, "desc": "c"} for c in children}}
-                          for n in nodes}
+    if restore is not None:
+        scn["restore"] = restore
     return scn
 
 
